@@ -244,17 +244,20 @@ func H_C03_edits() {
 	k := sxParam("k", 1)
 	s := genShape(n, false)
 	rooted := sxChoose("rooted", 2) == 1
-	if sxParam("singles", 1) == 1 {
-		// optionally one single-child inner node (what re-rooting a rooted tree leaves behind)
+	// optionally single-child inner nodes (what re-rooting a rooted tree, or an
+	// NCBI-like taxonomy, leaves behind): up to `singles` of them, anywhere,
+	// including several below one parent and chains
+	for r := 0; r < sxParam("singles", 1); r++ {
 		es := s.edges()
-		ch := sxChoose("single", len(es)+1)
-		if ch < len(es) {
-			u, v := es[ch][0], es[ch][1]
-			m := s.addNode(-1)
-			s.replaceNeighbor(u, v, m)
-			s.replaceNeighbor(v, u, m)
-			s.adj[m] = append(s.adj[m], u, v)
+		ch := sxChoose(fmt.Sprintf("single%d", r), len(es)+1)
+		if ch == len(es) {
+			break
 		}
+		u, v := es[ch][0], es[ch][1]
+		m := s.addNode(-1)
+		s.replaceNeighbor(u, v, m)
+		s.replaceNeighbor(v, u, m)
+		s.adj[m] = append(s.adj[m], u, v)
 	}
 	t := buildTree(s, rootShape(s, rooted))
 	// deco 0: every length and support present (symbolic >= 0); 1: none; 2: each free (absent or >= 0)
@@ -266,7 +269,8 @@ func H_C03_edits() {
 	default:
 		decorate(t, lenAny, supAny)
 	}
-	if sxChoose("indexed", 2) == 1 {
+	im := sxParam("indexedmode", 2)
+	if im == 1 || (im == 2 && sxChoose("indexed", 2) == 1) {
 		sxAssert(t.ReinitIndexes() == nil, "ReinitIndexes succeeds on the start tree")
 	}
 	c03check(t, "construction")
@@ -280,6 +284,9 @@ func H_C03_edits() {
 			op = sxChoose(fmt.Sprintf("op%d", step), c03nops)
 		}
 		if sxParam("skipmask", 0)&(1<<uint(op)) != 0 {
+			return
+		}
+		if om := sxParam("onlymask", 0); om != 0 && om&(1<<uint(op)) == 0 {
 			return
 		}
 		var ok bool
